@@ -228,6 +228,19 @@ def _f_mul(a, b):
     for c, o in ((a, b), (b, a)):
         if isinstance(c, _pybool):
             return o if c else (0.0 if _is_float_like(o) else 0)
+        # indicator factor If(cond, 1, 0) (e.g. one_hot output, bool cast to number): keep the product linear
+        if is_sym(c) and z3.is_app_of(c, z3.Z3_OP_ITE) and not z3.is_bool(c):
+            t_, e_ = c.arg(1), c.arg(2)
+            if (z3.is_int_value(t_) or z3.is_rational_value(t_)) and (z3.is_int_value(e_) or z3.is_rational_value(e_)):
+                tv = t_.as_long() if z3.is_int_value(t_) else None
+                ev = e_.as_long() if z3.is_int_value(e_) else None
+                if tv is None:
+                    tv = t_.numerator_as_long() / t_.denominator_as_long()
+                if ev is None:
+                    ev = e_.numerator_as_long() / e_.denominator_as_long()
+                if {tv, ev} <= {0, 1, 0.0, 1.0}:
+                    zero = 0.0 if (_is_float_like(o) or _is_float_like(c)) else 0
+                    return s_where(c.arg(0), o if tv == 1 else zero, o if ev == 1 else zero)
         if not is_sym(c) and not isinstance(c, _pybool):
             if c == 0:
                 return 0.0 if (_is_float_like(c) or _is_float_like(o)) else 0
